@@ -390,14 +390,14 @@ class _GitFile(IO[bytes]):
         """
         if self._closed:
             return
-        self._file.flush()
-        if self._fsync:
-            os.fsync(self._file.fileno())
-        self._file.close()
-        # Adjust before the rename, so the file is never visible at the
-        # final path with the wrong permissions.
-        adjust_shared_perm(self._lockfilename, self._shared_perm)
         try:
+            self._file.flush()
+            if self._fsync:
+                os.fsync(self._file.fileno())
+            self._file.close()
+            # Adjust before the rename, so the file is never visible at the
+            # final path with the wrong permissions.
+            adjust_shared_perm(self._lockfilename, self._shared_perm)
             if getattr(os, "replace", None) is not None:
                 os.replace(self._lockfilename, self._filename)
             else:
